@@ -20,7 +20,7 @@ PROPERTY = "C12"
 
 META = {
     "bounds": {
-        "quick": "7 template programs (one with a string literal holding a symbolic source character) x entry point {cli, file API} x the whole option lattice (2 formats x 3 mappings x copier flag, symbolic) x -D value of 4 symbolic hex digits; start address symbolic in the mapping's first banks; symbol file for 3 templates",
+        "quick": "7 template programs + a three-block program under all 6 orders of its blocks' file offsets (one with a string literal holding a symbolic source character) x entry point {cli, file API} x the whole option lattice (2 formats x 3 mappings x copier flag, symbolic) x -D value of 4 symbolic hex digits; start address symbolic in the mapping's first banks; symbol file for 3 templates",
         "thorough": "10 templates, -D value of 6 hex digits, start address anywhere in the mapping's window",
     },
     "outside": ["argparse itself and the OS process boundary (replayed concretely through `python -m a816.cli`)", "--dump-symbols console output", "programs beyond the templates"],
@@ -35,6 +35,8 @@ TEMPLATES = {
     "data": [("star", "p0", "rom"), ("db", "v"), ("label", "a"), ("dw", "v"), ("label", "b"), ("dl", "v")],
     "instr": [("star", "p0", "rom"), ("imm", "v"), ("label", "entry"), ("stal", "v"), ("nop",), ("label", "after")],
     "two-blocks": [("star", "p0", "rom"), ("dw", "v"), ("label", "first"), ("star", "p1", "rom"), ("dl", "v"), ("label", "second"), ("db", "v")],
+    # three `*=` blocks: written in source order whatever the order of their file offsets (all 6 orders, see jobs)
+    "three-blocks": [("star", "p0", "rom"), ("dw", "v"), ("label", "first"), ("star", "p1", "rom"), ("dl", "v"), ("label", "second"), ("star", "p2", "rom"), ("db", "v"), ("dw", "v"), ("label", "third")],
     "scopes": [("star", "p0", "rom"), ("label", "top"), ("block", [("db", "v"), ("label", "inner")]), ("scope", "ns", [("dw", "v"), ("label", "exported")]), ("nop",)],
     "loop": [("star", "p0", "rom"), ("label", "before"), ("for", "i", 2, [("db", "v"), ("label", "inloop")]), ("label", "afterloop"), ("dw", "v")],
     "macro": [("star", "p0", "rom"), ("macro", "mm", [("abs", "v"), ("label", "local")]), ("apply", "mm"), ("label", "mid"), ("apply", "mm")],
@@ -57,6 +59,11 @@ def jobs(tier, seed):
     for n in names:
         for entry in ("cli", "file"):
             out.append({"id": f"{n}/{entry}", "tpl": n, "entry": entry, "digits": 4 if tier == "quick" else 6, "wide": tier == "thorough"})
+    import itertools
+
+    for order in itertools.permutations(("p0", "p1", "p2")):
+        for entry in ("cli", "file"):
+            out.append({"id": f"three-blocks/{''.join(x[1] for x in order)}/{entry}", "tpl": "three-blocks", "entry": entry, "digits": 2, "wide": tier == "thorough", "order": list(order)})
     for n in (names[:3] if tier == "quick" else names):
         out.append({"id": f"{n}/symbol-file", "tpl": n, "entry": "symfile", "digits": 2, "wide": False})
     return out
@@ -103,6 +110,12 @@ def run(spec, cx):
     for name, kind in poss:
         pos_syms[name] = cx.int(name, 0, 0xFFFFFF)
     position_constraints(cx, map_v, [n for n, _ in poss], spec.get("wide"))
+    if spec.get("order"):
+        # file offsets of the blocks in this order, apart (so that the blocks do not overlap)
+        g = L.GEOMS[GEOM[map_v]]
+        seq = spec["order"]
+        for a, b in zip(seq, seq[1:]):
+            cx.assume(L.offset(g, cx.t(a)) + 0x10 < L.offset(g, cx.t(b)))
     digits = [cx.char(f"d{i}", HEX) for i in range(spec["digits"])]
     define = cx.string([ord(c) for c in "v=0x"] + digits)
     val = 0
